@@ -105,9 +105,10 @@ Definition WF_regions (h : heap) : Prop :=
   (forall i r, i < nnodes h -> n_region (nd h i) = Some r ->
      region_capable (n_kind (nd h i)) = true /\
      exists d id, n_doc (nd h i) = Some d /\ n_id (nd h r) = Some id /\ lookup (d_regions (dc h d)) id = Some r) /\
-  (* a registry only holds Region elements, under their own id *)
+  (* a registry only holds Region elements, under their own id, and holds each id once *)
   (forall d id r, d < ndocs h -> lookup (d_regions (dc h d)) id = Some r ->
-     n_kind (nd h r) = KRegion /\ n_id (nd h r) = Some id).
+     n_kind (nd h r) = KRegion /\ n_id (nd h r) = Some id) /\
+  (forall d, d < ndocs h -> NoDup (map fst (d_regions (dc h d)))).
 
 (* ---------------------------------------------------------------- 6. values ------------------ *)
 (* the value domain of each style property (TTML2 / IMSC 1.1 as constrained by the canonical model:
@@ -242,7 +243,7 @@ Definition regions_b (h : heap) : bool :=
                       | Some r => (if kind_eq_dec (n_kind (nd h r)) KRegion then true else false) &&
                                   oeq (n_id (nd h r)) (Some (fst e))
                       | None => true
-                      end) (d_regions (dc h d))) (docs_of h).
+                      end) (d_regions (dc h d)) && nodup_b (map fst (d_regions (dc h d)))) (docs_of h).
 Definition all_valid_b (l : list (prop * sval)) : bool := forallb (fun e => spec_valid (fst e) (snd e)) l.
 Definition values_b (h : heap) : bool :=
   forallb (fun i => all_valid_b (n_styles (nd h i)) && all_valid_b (n_anims (nd h i))) (nodes_of h) &&
